@@ -391,10 +391,14 @@ impl DefaultModeArgs {
                     .input_fs_dir
                     .clone()
                     .expect("IE: This should not be possible (Clap)"),
-                suffix: self
-                    .input_fs_ext
-                    .clone()
-                    .expect("IE: This should not be possible (Clap)"),
+                // same normalization as with `kernel.input.fs.suffix`: ".txn" and "txn" are the same
+                suffix: {
+                    let ext = self
+                        .input_fs_ext
+                        .as_ref()
+                        .expect("IE: This should not be possible (Clap)");
+                    ext.strip_prefix('.').unwrap_or(ext.as_str()).into()
+                },
             };
             Ok(InputSettings::Fs(i))
         } else if self.input_git_repo.is_some() {
